@@ -92,6 +92,9 @@ func (s *sys) Ops() []string {
 		for k := 2; k <= 12; k += 2 {
 			ops = append(ops, fmt.Sprintf("Pin R1 rec y !cancel@%d", k))
 		}
+		for k := 1; k <= 8; k++ {
+			ops = append(ops, fmt.Sprintf("Update R1 R2 unpin !cancel@%d", k))
+		}
 		return ops
 	}
 	// Pin(node, recursive, name)
